@@ -185,6 +185,21 @@ theorem inline_first_not_disallowed (l : Bytes) :
   · simp only [hd, if_true]; simp [disallowedAt, disallowedAtW, S.v_lt]
   · simp only [hd]; simpa using hd
 
+/-- **Locality.** The block filter carries no state from one tag to the next: what is written for the text in
+    front of a `<` does not depend on what follows that `<`, and what is written from a `<` on does not depend on
+    what precedes it - no quote, comment or open-tag context can switch the filter off (or on). -/
+theorem tagfilterBlock_local (p t : Bytes) :
+    tagfilterBlock (p ++ 0x3C :: t) = tagfilterBlock p ++ tagfilterBlock (0x3C :: t) := by
+  rw [tagfilterBlock_eq_rewriteSpec, tagfilterBlock_eq_rewriteSpec, tagfilterBlock_eq_rewriteSpec]
+  exact rewriteSpecW_append_lt htmlSpace (by decide) p t
+
+/-- Hence a disallowed tag is neutralised behind every prefix. -/
+theorem disallowed_neutralised_in_context (p t : Bytes) (h : disallowedAt (0x3C :: t) = true) :
+    tagfilterBlock (p ++ 0x3C :: t) = tagfilterBlock p ++ S.v_lt ++ tagfilterBlock t := by
+  rw [tagfilterBlock_local]
+  have e := tagfilter_eq_spec (0x3C :: t)
+  simp [tagfilterBlock, e, h]
+
 /-! Non-vacuity: a block with two disallowed tags, one allowed tag and a `<` directly after a tag name. -/
 example : survivorsH [0x3C, 0x78, 0x6D, 0x70, 0x3E, 0x3C, 0x62, 0x3E, 0x3C, 0x2F, 0x58, 0x4D, 0x50, 0x3E] = 2 := by decide
 example : survivorsH (tagfilterBlock [0x3C, 0x78, 0x6D, 0x70, 0x3E, 0x3C, 0x62, 0x3E, 0x3C, 0x2F, 0x58, 0x4D, 0x50, 0x3E]) = 0 := by
@@ -193,5 +208,9 @@ example : survivorsH (tagfilterBlock [0x3C, 0x78, 0x6D, 0x70, 0x3E, 0x3C, 0x62, 
 -- the first is followed by `xmp&lt;xmp>` and still is not disallowed.
 example : tagfilterBlock [0x3C, 0x78, 0x6D, 0x70, 0x3C, 0x78, 0x6D, 0x70, 0x3E] =
     [0x3C, 0x78, 0x6D, 0x70] ++ S.v_lt ++ [0x78, 0x6D, 0x70, 0x3E] := by decide
+-- `<div title="` in front of `<xmp>`: the open quote changes nothing.
+example : tagfilterBlock ([0x3C, 0x64, 0x69, 0x76, 0x20, 0x74, 0x69, 0x74, 0x6C, 0x65, 0x3D, 0x22] ++ [0x3C, 0x78, 0x6D, 0x70, 0x3E]) =
+    [0x3C, 0x64, 0x69, 0x76, 0x20, 0x74, 0x69, 0x74, 0x6C, 0x65, 0x3D, 0x22] ++ S.v_lt ++ [0x78, 0x6D, 0x70, 0x3E] := by decide
+example : disallowedAt [0x3C, 0x78, 0x6D, 0x70, 0x3E] = true := by decide
 
 end Comrak.C14
